@@ -103,6 +103,8 @@ def classify_gcc_line(l: str, following: str) -> str:
     if "warning:" in l and "error:" not in l:
         if re.search(r"unused|set but not used|Wunused", msg):
             return ""  # -Wall noise that is not a validity problem
+        if "overflow in conversion" in msg or "Woverflow" in msg:
+            return ""  # a negative literal stored into an unsigned buffer: the user's program, not the translation
         return "warning:" + "-".join(re.sub(r"[^a-z ]", "", msg.lower()).split()[:3])
     return "other:" + "-".join(re.sub(r"[^a-z ]", "", msg.lower()).split()[:3])
 
